@@ -70,18 +70,23 @@ def rockit_frame(tb):
     fr = None
     for f in traceback.extract_tb(tb):
         if "/rockit/" in f.filename:
-            fr = "%s:%d:%s" % (f.filename.split("/rockit/")[-1], f.lineno, f.name)
+            fr = "%s:%s" % (f.filename.split("/rockit/")[-1], f.name)
     return fr
 
 
 def time_coords(nlp, base, names=("tc", "T", "t0")):
-    """indices of decision coordinates on which the sampled times depend (unit perturbation)"""
+    """indices of decision coordinates on which the sampled times depend (unit perturbation), plus
+    *unlabelled* coordinates: those no public read-back depends on (auxiliary grid variables such as
+    the local interval lengths of a grid that is also localized in t0).  Rows that involve only such
+    coordinates can only restrict the time grid; C06 analyses their solution set."""
     q0 = nlp.read(base)
     idx = []
     for i in range(nlp.nx):
         w = base.copy(); w[i] += 0.31
         q = nlp.read(w)
         if any(not np.allclose(q[n], q0[n], rtol=0, atol=1e-12) for n in names if n in q0):
+            idx.append(i)
+        elif all(np.allclose(q[n], q0[n], rtol=0, atol=1e-12, equal_nan=True) for n in q0):
             idx.append(i)
     return idx
 
